@@ -132,6 +132,21 @@ pub fn run(ctx: &Ctx, st: &mut Stats) {
     if ystride == 1 {
         st.mark_exhaustive("(a) every (year 1..=9999, day-of-year 0..=367)", "all 9999 x 368 (year, day-of-year) pairs, with consistent and inconsistent redundant month/day");
     }
+    // (a2) every (year, month, day 27..=32) for the three date-bearing types: month lengths and leap rule on each type's own path
+    ctx.par(st, "(a2) every (year, month, day 27..=32) x Date,Timestamp,OracleDate", true, 0, (9999 / ystride) * 12 * 6, |st, i, _| {
+        let y = 1 + (i / 72) * ystride;
+        let m = (i / 6 % 12 + 1) as u32;
+        let d = (27 + i % 6) as u32;
+        let ok = d <= dim(y, m);
+        let why = if ok { "month-end" } else { "day-beyond-month-length" };
+        ev(st, Ty::Date, "YYYY-MM-DD", &format!("{:04}-{:02}-{:02}", y, m, d), if ok { Ok(V::Date(y as i32, m, d)) } else { Err(()) }, why);
+        ev(st, Ty::Ts, "YYYY-MM-DD HH24:MI:SS.FF", &format!("{:04}-{:02}-{:02} 12:30:45.5", y, m, d), if ok { Ok(V::Ts(y as i32, m, d, 12, 30, 45, 500_000)) } else { Err(()) }, why);
+        ev(st, Ty::Ora, "DD.MM.YYYY HH24:MI:SS", &format!("{:02}.{:02}.{:04} 23:59:59", d, m, y), if ok { Ok(V::Ora(y as i32, m, d, 23, 59, 59)) } else { Err(()) }, why);
+        ev(st, Ty::Ts, "DD MON YYYY", &format!("{} {} {}", d, &MONTHS[m as usize - 1][..3], y), if ok { Ok(V::Ts(y as i32, m, d, 0, 0, 0, 0)) } else { Err(()) }, why);
+    });
+    if ystride == 1 {
+        st.mark_exhaustive("(a2) every (year, month, day 27..=32) x Date,Timestamp,OracleDate", "all 9999 years x 12 months x days 27..=32 through Date, Timestamp and OracleDate pictures");
+    }
     // (b) every date through several pictures (exact spelling + weekday cross-check)
     let dstride = ctx.tier.pick(20_011, 11, 1);
     ctx.par(st, "(b) every date through 6 pictures", true, 0, (N_DAYS as i64 + dstride - 1) / dstride, |st, i, _| {
